@@ -4,6 +4,8 @@ import os
 
 from props import sched
 
+sched.cov_register(__name__.split('.')[-1])      # dev-only: VERIF_COVERAGE=1
+
 ID = 'C08'
 COQ_MODEL = 'model.TsProps'
 COQ_CORR = 'corr_C08'
